@@ -43,6 +43,25 @@ CLAIMS = {
         "pre-hash collision, and the verifier's mu is H(tr||M') of exactly the interpretation it is asked about.",
    note=TB + "cross-acceptance therefore needs a SHAKE256 or pre-hash collision; the confusion family (all splits, all other modes, crafted mimicry) is executed on the crate on every run.",
    tech="Lean 4 proof of encoding injectivity over translated OIDs/domain bytes + exhaustive alternative-interpretation runs per signed string"),
+ 'C01': dict(cat='proof', ref='DESIGN 5 C01',
+   text="Partial proof + differential execution. Proved in Lean for all inputs and oracles: a signature is emitted only after the four rejection checks of Algorithm 7 passed (so ||z|| < gamma1-beta, the verifier's own "
+        "threshold expression, and weight(h) <= omega hold for every emitted signature), signer and verifier hash the same formatted message. Not proved: w1' = w1 (MakeHint/UseHint duality lifted through the NTT "
+        "pipeline and the three key constructors agreeing); decided on every run by verify(sign(..)) = true on the crate over all modes, sets and 2 x 4 key-provenance pairs, plus model agreement on a sample.",
+   note=TB + "completeness for every input additionally rests on C02, C03, C09, C11, C18 (each claimed separately).",
+   tech="Lean 4 proof of rejection-loop exit conditions + round-trip execution over all (mode, set, sk provenance, pk provenance) combinations"),
+ 'C02': dict(cat='proof', ref='DESIGN 5 C02',
+   text="Partial proof + differential execution. Proved in Lean for all inputs and oracles: acceptance implies strict decoding succeeded, response norm strictly below gamma1-beta, recomputed commitment hash equal to c~; "
+        "any undecodable signature is rejected; contexts above 255 bytes are rejected by all three verifiers. Not proved: the recomputed w1' equals FIPS 204's for every input; decided on every run against a Python "
+        "transcription of Algorithms 3, 5, 8 on constructed boundary cases: forged signatures under a t1 = 0 key with the norm one below / at the bound, hint weight 0..omega, every class of hint-section malformation "
+        "(including set-preserving ones that only canonicity can reject), one-bit changes per section, long contexts.",
+   note=TB + "checks/ref/mldsa.py (Algorithms 3, 5, 8) is the oracle for the accept side.",
+   tech="Lean 4 proof of the rejecting conditions + constructed accept/reject boundary cases judged by a FIPS 204 reference"),
+ 'C05': dict(cat='proof', ref='DESIGN 5 C05',
+   text="Partial proof + exhaustive flip runs. Proved in Lean: UseHint(1, r) != UseHint(0, r) for every r and both gamma2 (a decoded hint-bit change always changes w1'), UseHint's range, and a change of message / context / "
+        "mode changes the hashed input tr||M' unless a pre-hash collision is exhibited. Not provable without assumptions on SHAKE256 and A: flips inside c~ and z. Those are decided by running every single-bit "
+        "position of sig, pk, message and context of sampled valid tuples (honest and forged with a dense hint section) on the crate: exploration, exhaustive per tuple.",
+   note=TB + "an exception would be a SHAKE256 collision; tuple count per run is stated in the evidence.",
+   tech="Lean 4 proof of hint-bit sensitivity and encoding injectivity + exhaustive single-bit mutation of sampled valid tuples on the crate"),
 }
 
 ORDER = ['C%02d' % i for i in range(1, 19)]
